@@ -25,12 +25,23 @@ type c06Case struct {
 	SepN   int
 }
 
-func c06Run(c c06Case, M uint32, maxDraws int) (impl map[string]int, total int, ent float32, fail string) {
+func c06Run(c c06Case, maxDraws int) (impl map[string]int, total int, ent float32, M uint32, fail string) {
 	seps := "-_.:+"
 	// one list for all streams: NewWordList orders the kept words by Go map iteration, which differs between constructions
 	wl, werr := NewWordList(c.Words)
 	if werr != nil {
-		return nil, 0, 0, vSprint("NewWordList: ", werr)
+		return nil, 0, 0, 0, vSprint("NewWordList: ", werr)
+	}
+	// the cell: raw words range over [0,M) with M a common multiple of every bound used (kept list size, Length, 2, separators)
+	M = 2
+	for _, k := range []int{int(wl.Size()), c.Length, c.SepN} {
+		if k > 1 {
+			a, b := int(M), k
+			for b != 0 {
+				a, b = b, a%b
+			}
+			M = M / uint32(a) * uint32(k)
+		}
 	}
 	mk := func() *WLRecipe {
 		r := NewWLRecipe(c.Length, wl)
@@ -46,15 +57,15 @@ func c06Run(c c06Case, M uint32, maxDraws int) (impl map[string]int, total int, 
 	var err error
 	var p0 *Password
 	if pn := vWithTape(probe, func() { p0, err = mk().Generate() }); pn != nil || err != nil {
-		return nil, 0, 0, vSprint("probe failed: ", pn, err)
+		return nil, 0, 0, M, vSprint("probe failed: ", pn, err)
 	}
 	vWithTape(newTape(nil), func() { ent = mk().Entropy() })
 	if p0.Entropy != ent {
-		return nil, 0, ent, vSprint("Password.Entropy = ", p0.Entropy, " but the recipe's Entropy() = ", ent)
+		return nil, 0, ent, M, vSprint("Password.Entropy = ", p0.Entropy, " but the recipe's Entropy() = ", ent)
 	}
 	D := probe.pos / 4
 	if D > maxDraws {
-		return nil, 0, ent, ""
+		return nil, 0, ent, M, ""
 	}
 	impl = map[string]int{}
 	total = 1
@@ -71,14 +82,14 @@ func c06Run(c c06Case, M uint32, maxDraws int) (impl map[string]int, total int, 
 		tp := newTape(vWords(words...))
 		var p *Password
 		if pn := vWithTape(tp, func() { p, err = mk().Generate() }); pn != nil || err != nil || p == nil {
-			return nil, 0, ent, vSprint("generation failed on raw words ", words, ": ", pn, err)
+			return nil, 0, ent, M, vSprint("generation failed on raw words ", words, ": ", pn, err)
 		}
 		if p.Entropy != ent {
-			return nil, 0, ent, vSprint("Password.Entropy = ", p.Entropy, " on raw words ", words, " but Entropy() = ", ent)
+			return nil, 0, ent, M, vSprint("Password.Entropy = ", p.Entropy, " on raw words ", words, " but Entropy() = ", ent)
 		}
 		impl[c06Outcome(p.Tokens())]++
 	}
-	return impl, total, ent, ""
+	return impl, total, ent, M, ""
 }
 
 func c06CharCount(alpha []string, req [][]string, L int) (valid float64) {
@@ -131,25 +142,16 @@ func TestVerifReplay(t *testing.T) {
 		{[]string{"ab", "cd", "ef", "gh", "ij"}, 2, CSFirst, 0},
 		{[]string{"ab", "ab", "cd"}, 2, CSNone, 0}, // duplicates are removed by NewWordList
 	}
+	// capitalised twins: which of the pair is met first depends on Go's map order, so several constructions each
+	for k := 0; k < 12; k++ {
+		cases = append(cases, c06Case{[]string{"polish", "Polish", "apple"}, 2, CSRandom, 0}, c06Case{[]string{"Polish", "apple", "polish", "Bear", "bear"}, 2, CSOne, 0},
+			c06Case{[]string{"polish", "Polish", "42"}, 2, CSRandom, 0}, c06Case{[]string{"7", "Bear", "bear", "polish", "Polish"}, 2, CSOne, 0})
+	}
 	if req.Tier == "thorough" {
 		cases = append(cases, c06Case{[]string{"ab", "cd", "7"}, 3, CSRandom, 0}, c06Case{[]string{"a", "b", "c", "d", "e", "f", "g"}, 2, CSOne, 0}, c06Case{[]string{"ab", "cd", "ef"}, 3, CSOne, 2})
 	}
 	for _, c := range cases {
-		uniq := map[string]bool{}
-		for _, w := range c.Words {
-			uniq[w] = true
-		}
-		M := uint32(2)
-		for _, k := range []int{len(uniq), c.Length, c.SepN, 2} {
-			if k > 1 {
-				a, b := int(M), k
-				for b != 0 {
-					a, b = b, a%b
-				}
-				M = M / uint32(a) * uint32(k)
-			}
-		}
-		impl, total, ent, fail := c06Run(c, M, 7)
+		impl, total, ent, M, fail := c06Run(c, 7)
 		in := map[string]interface{}{"words": c.Words, "length": c.Length, "capitalize": string(c.Cap), "separator_symbols": c.SepN, "raw_word_range": M}
 		if fail != "" {
 			vReport(vHit{Input: in, Observed: fail, Required: "every password carries the recipe's Entropy()"})
